@@ -69,19 +69,19 @@ package uu
 //@   requires spare_capacity_of_dst_does_not_overlap_src: disjointSpare(dst, src)
 //@   ensures length: len(res) == len(dst) + encLen(len(src))
 //@   ensures prefix: forall(q, 0 <= q && q < len(dst), res[q] == old(dst[q]))
-//@   ensures encoded: imp(!sameArray(dst, src), forall(p, 0 <= p && p < encLen(len(src)), res[len(dst)+p] == encByte(src, p)))
+//@   ensures encoded: forall(p, 0 <= p && p < encLen(len(src)), res[len(dst)+p] == old(encByte(src, p)))
 //@   ensures source: forall(i, 0 <= i && i < len(src), src[i] == old(src[i]))
-//@   before "dst = append(dst, byte(uuOffset+len(line)))": assert(byte(uuOffset+len(line)) == encByte(src, 62*k), "length_char_is_perls")
-//@   before "dst = append(dst, enc[0], enc[1], enc[2], enc[3])": assert(enc[0] == encByte(src, 62*k + 1 + 4*j), "char0_is_perls"); assert(enc[1] == encByte(src, 62*k + 2 + 4*j), "char1_is_perls"); assert(enc[2] == encByte(src, 62*k + 3 + 4*j), "char2_is_perls"); assert(enc[3] == encByte(src, 62*k + 4 + 4*j), "char3_is_perls")
-//@   after "dst = append(dst, enc[0], enc[1], enc[2], enc[3])": assert(forall(p, 0 <= p && p < 62*k + 1 + 4*j, dst[len(old(dst))+p] == prev(dst[len(old(dst))+p])), "append_keeps_earlier_output"); assert(imp(!sameArray(old(dst), src), mem(src) == prev(mem(src))), "append_leaves_srcs_array_alone")
-//@   before "dst = append(dst, '\\n')": assert(encByte(src, 62*k + 1 + 4*j) == '\n', "newline_is_perls")
+//@   before "dst = append(dst, byte(uuOffset+len(line)))": assert(byte(uuOffset+len(line)) == old(encByte(src, 62*k)), "length_char_is_perls")
+//@   before "dst = append(dst, enc[0], enc[1], enc[2], enc[3])": assert(forall(p, 0 <= p && p < 62*k + 1 + 4*j, dst[len(old(dst))+p] == old(encByte(src, p))), "encoded"); assert(enc[0] == old(encByte(src, 62*k + 1 + 4*j)), "char0_is_perls"); assert(enc[1] == old(encByte(src, 62*k + 2 + 4*j)), "char1_is_perls"); assert(enc[2] == old(encByte(src, 62*k + 3 + 4*j)), "char2_is_perls"); assert(enc[3] == old(encByte(src, 62*k + 4 + 4*j)), "char3_is_perls")
+//@   after "dst = append(dst, enc[0], enc[1], enc[2], enc[3])": assert(forall(p, 0 <= p && p < 62*k + 1 + 4*j, dst[len(old(dst))+p] == prev(dst[len(old(dst))+p])), "append_keeps_earlier_output"); assert(forall(p, 0 <= p && p < 62*k + 1 + 4*j, dst[len(old(dst))+p] == old(encByte(src, p))), "earlier_output_still_encoded"); assert(dst[len(old(dst)) + 62*k + 1 + 4*j] == old(encByte(src, 62*k + 1 + 4*j)), "stored_char0"); assert(dst[len(old(dst)) + 62*k + 2 + 4*j] == old(encByte(src, 62*k + 2 + 4*j)), "stored_char1"); assert(dst[len(old(dst)) + 62*k + 3 + 4*j] == old(encByte(src, 62*k + 3 + 4*j)), "stored_char2"); assert(dst[len(old(dst)) + 62*k + 4 + 4*j] == old(encByte(src, 62*k + 4 + 4*j)), "stored_char3"); assert(forall(p, 62*k + 1 + 4*j <= p && p < 62*k + 5 + 4*j, p == 62*k + 1 + 4*j || p == 62*k + 2 + 4*j || p == 62*k + 3 + 4*j || p == 62*k + 4 + 4*j, trig(dst[len(old(dst))+p])), "four_new_positions"); assert(forall(p, 62*k + 1 + 4*j <= p && p < 62*k + 5 + 4*j, dst[len(old(dst))+p] == old(encByte(src, p))), "new_output_encoded")
+//@   before "dst = append(dst, '\\n')": assert(old(encByte(src, 62*k + 1 + 4*j)) == '\n', "newline_is_perls")
 //@   loop 1 counter k
 //@     invariant consumed: 0 <= k && (k == 0 || 45*(k-1) < len(src))
 //@     invariant length: len(dst) == len(old(dst)) + encLen(min(45*k, len(src)))
 //@     invariant apart: disjointSpare(dst, src)
 //@     invariant prefix: forall(q, 0 <= q && q < len(old(dst)), dst[q] == old(dst[q]))
 //@     invariant source: forall(i, 0 <= i && i < len(src), src[i] == old(src[i]))
-//@     invariant encoded: imp(!sameArray(old(dst), src), !sameArray(dst, src) && forall(p, 0 <= p && p < encLen(min(45*k, len(src))), dst[len(old(dst))+p] == encByte(src, p)))
+//@     invariant encoded: forall(p, 0 <= p && p < encLen(min(45*k, len(src))), dst[len(old(dst))+p] == old(encByte(src, p)))
 //@     apply linePos(k, 0)
 //@     apply encLenFullLines(k)
 //@   loop 1.1 counter j
@@ -90,7 +90,7 @@ package uu
 //@     invariant apart: disjointSpare(dst, src)
 //@     invariant prefix: forall(q, 0 <= q && q < len(old(dst)), dst[q] == old(dst[q]))
 //@     invariant source: forall(i, 0 <= i && i < len(src), src[i] == old(src[i]))
-//@     invariant encoded: imp(!sameArray(old(dst), src), !sameArray(dst, src) && forall(p, 0 <= p && p < 62*k + 1 + 4*j, dst[len(old(dst))+p] == encByte(src, p)))
+//@     invariant encoded: forall(p, 0 <= p && p < 62*k + 1 + 4*j, dst[len(old(dst))+p] == old(encByte(src, p)))
 //@     hint short_line: len(line) <= 45 && j <= 15
 //@     apply linePos(k, 1 + 4*j)
 //@     apply linePos(k, 2 + 4*j)
